@@ -51,6 +51,11 @@ def units(tier):
         out.append({'fam': 'large', 'w': w, 's': s})
     for w in range(1, 7):
         out.append({'fam': 'deepgroup', 'w': w})
+    for part in spaces.shard(list(range(7, 131 if tier == 'quick' else 400)), 8):
+        out.append({'fam': 'stridesweep', 'strides': part})
+    out.append({'fam': 'manykeys', 'keys': 4100})
+    if tier != 'quick':
+        out.append({'fam': 'verylong', 'n': 140000})
     nest = [(2, 1), (2, 2), (3, 2), (1, 2), (3, 1)]
     for (w1, s1) in nest:
         for (w2, s2) in nest:
@@ -79,6 +84,15 @@ def cases(unit):
     elif fam == 'large':
         for n in (unit['w'] - 1, unit['w'], unit['w'] + 1, 2 * unit['w'] + 3):
             yield {'fam': 'top', 'w': unit['w'], 's': unit['s'], 'n': n}
+    elif fam == 'stridesweep':
+        # every stride in a wide range (slot arithmetic must be exact for all of them), window a little larger than the stride
+        for st in unit['strides']:
+            yield {'fam': 'top', 'w': st + 3, 's': st, 'n': 2 * st + 8}
+    elif fam == 'manykeys':
+        yield {'fam': 'manykeys', 'keys': unit['keys'], 'w': 2, 's': 3}
+        yield {'fam': 'manykeys', 'keys': unit['keys'] // 8, 'w': 3, 's': 2}
+    elif fam == 'verylong':
+        yield {'fam': 'verylong', 'n': unit['n'], 'w': 2, 's': 1}
     elif fam == 'deepgroup':
         for s in range(1, 7):
             n = 3 * (unit['w'] + s) + 2
@@ -174,6 +188,8 @@ def run_case(case, acc):
             acc.count('ring_wrapped')
         return out
 
+    if fam in ('manykeys', 'verylong'):
+        return run_big(case, acc)
     if fam == 'grouped':
         w, s, order = case['w'], case['s'], case['order']
         pos = {}
@@ -247,6 +263,46 @@ def run_case(case, acc):
     return out
 
 
+def run_big(case, acc):
+    """Thousands of simultaneously live keys (round-robin, 6 items each) / one very long key: sums of the windows."""
+    import rx
+    import rxsci as rs
+    from ..drivers import Sink
+    w, s = case['w'], case['s']
+    if case['fam'] == 'manykeys':
+        nk = case['keys']
+        items = [(k, p) for p in range(6) for k in range(nk)]
+        pipeline = [rs.ops.group_by(lambda t: t[0], [rs.data.roll(w, s, [rs.ops.map(lambda t: t[1]), rs.data.to_list()])])]
+        exp_per_key = windows(list(range(6)), w, s)
+        sink = Sink()
+        sink.subscribe_to(rx.from_(items).pipe(rs.state.with_memory_store(pipeline)))
+        acc.evals += 1
+        acc.events += len(items)
+        acc.traces += 1
+        if sink.error is not None or sink.completed != 1:
+            return [viol('manykeys|stream-not-completed', {'keys': nk, 'error': repr(sink.error)})]
+        # every key must produce exactly the windows of 0..5; count them (outputs carry no key, order is by emission)
+        from collections import Counter
+        got = Counter(map(repr, sink.items))
+        want = Counter()
+        for win in exp_per_key:
+            want[repr(win)] += nk
+        if got != want:
+            return [viol('manykeys|windows-differ', {'keys': nk, 'w': w, 's': s, 'expected_counts': dict(want), 'observed_counts': dict(list(got.items())[:8])})]
+        acc.count('many_live_keys')
+        acc.nontrivial.add(fast_hash(repr(case)))
+        return []
+    n = case['n']
+    sink = Sink()
+    sink.subscribe_to(rx.range(0, n).pipe(rs.state.with_memory_store([rs.data.roll(w, s, [rs.math.sum(reduce=True)]), rs.ops.count(reduce=True)])))
+    acc.evals += 1
+    acc.events += n
+    acc.traces += 1
+    if sink.error is not None or sink.items != [len(windows(list(range(n)), w, s))]:
+        return [viol('verylong|window-count-differs', {'n': n, 'observed': sink.items, 'error': repr(sink.error)})]
+    return []
+
+
 def run_raw(case, acc):
     w, s = case['w'], case['s']
     events = [tuple(e) for e in case['events']]
@@ -305,7 +361,7 @@ def run_raw(case, acc):
 def guards(acc, tier):
     msgs = []
     c = acc.counters
-    for name in ('ring_wrapped', 'interleaved_keys', 'key_index_reused', 'two_keys'):
+    for name in ('ring_wrapped', 'interleaved_keys', 'key_index_reused', 'two_keys', 'many_live_keys'):
         if c.get(name, 0) < 1:
             msgs.append('no execution with %s' % name)
     if len(acc.outcomes) < 50:
